@@ -1,5 +1,13 @@
 F = "ak/short_uuid.py"
 MUTANTS = [
+    # validation by a regular expression instead of the length test (decided on the language the call accepts)
+    {"id": "c20-n-regex-fullmatch", "expect": "silent", "edits": [(F, "import uuid\n", "import re\nimport uuid\n"), (F, "len(uuid_short_str) != _SHORT_GUID_LEN:", "not re.fullmatch('[' + ''.join(_ALPHABET) + ']{22}', uuid_short_str):")],
+},
+    {"id": "c20-n-regex-match-Z", "expect": "silent", "edits": [(F, "import uuid\n", "import re\nimport uuid\n_SHORT_RE = re.compile('[23456789ABCDEFGHJKLMNPQRSTUVWXYZabcdefghijkmnopqrstuvwxyz]{%d}\\\\Z' % 22)\n"), (F, "len(uuid_short_str) != _SHORT_GUID_LEN:", "not _SHORT_RE.match(uuid_short_str):")]},
+    {"id": "c20-regex-match-dollar", "expect": "fire", "edits": [(F, "import uuid\n", "import re\nimport uuid\n_SHORT_RE = re.compile('[23456789ABCDEFGHJKLMNPQRSTUVWXYZabcdefghijkmnopqrstuvwxyz]{%d}$' % 22)\n"), (F, "len(uuid_short_str) != _SHORT_GUID_LEN:", "not _SHORT_RE.match(uuid_short_str):")]},
+    {"id": "c20-regex-match-no-anchor", "expect": "fire", "edits": [(F, "import uuid\n", "import re\nimport uuid\n_SHORT_RE = re.compile('[23456789ABCDEFGHJKLMNPQRSTUVWXYZabcdefghijkmnopqrstuvwxyz]{22}')\n"), (F, "len(uuid_short_str) != _SHORT_GUID_LEN:", "not _SHORT_RE.match(uuid_short_str):")]},
+    {"id": "c20-n-regex-wider-class", "expect": "silent", "edits": [(F, "import uuid\n", "import re\nimport uuid\n_SHORT_RE = re.compile('[0-9A-Za-z]{22}')\n"), (F, "len(uuid_short_str) != _SHORT_GUID_LEN:", "not _SHORT_RE.fullmatch(uuid_short_str):")],
+     "note": "0, 1, I, O, l are outside the alphabet: the look-up raises KeyError, which the handler turns into ValueError - the property holds"},
     {"id": "c20-dup-letter", "expect": "fire", "edits": [(F, '"abcdefghijkmnopqrstuvwxyz"', '"abcdefghijkmnopqrstuvwxya"')]},
     {"id": "c20-56-letters", "expect": "fire", "edits": [(F, '"abcdefghijkmnopqrstuvwxyz"', '"abcdefghijkmnopqrstuvwxy"')]},
     {"id": "c20-len-21", "expect": "fire", "edits": [(F, "_SHORT_GUID_LEN = 22", "_SHORT_GUID_LEN = 21")]},
